@@ -87,6 +87,36 @@ fn real_main() -> i32 {
             driver::replay(&all_props(), &args[2], quiet)
         }
         "decode-worker" => props::c16::worker_main(),
+        "harvest" => {
+            // debugging aid: list the harvested samples (index, type, bytes, atoms)
+            let seed: u64 = args.get(2).and_then(|s| s.parse().ok()).unwrap_or(1);
+            for (i, sm) in harvest::cached(seed, 0, "9001").iter().enumerate() {
+                if sm.trace.bytes.len() <= 70 {
+                    println!("   hex={}", sm.trace.bytes.iter().map(|b| format!("{:02x}", b)).collect::<String>());
+                }
+                println!("{} {} bytes={} atoms={}", i, sm.ty, sm.trace.bytes.len(), sm.trace.atoms.iter().map(|a| format!("{}:{:?}/{}", a.path, a.kind, a.len)).collect::<Vec<_>>().join(" ").chars().take(200).collect::<String>());
+            }
+            0
+        }
+        "decode" => {
+            // debugging aid: zksim decode <registered type name> <hex bytes>
+            if args.len() < 4 {
+                return usage();
+            }
+            let hex = &args[3];
+            let bytes: Vec<u8> = (0..hex.len() / 2).filter_map(|i| u8::from_str_radix(&hex[2 * i..2 * i + 2], 16).ok()).collect();
+            let e = types::registry().get(&args[2]);
+            let r = std::panic::catch_unwind(|| (e.decode)(&bytes));
+            match r {
+                Ok(Ok(re)) => println!("decoded; re-encodes to {} bytes; identical: {}", re.len(), re == bytes),
+                Ok(Err(err)) => println!("refused: {}", err),
+                Err(_) => {
+                    let (loc, msg) = driver::take_panic();
+                    println!("PANIC at {}: {}", loc, msg);
+                }
+            }
+            0
+        }
         _ => usage(),
     }
 }
